@@ -8,20 +8,27 @@ checks = [(c['property_id'], c['quick_cmd']) for c in m['checks']]
 seeds = sys.argv[1:] or sorted(d for d in os.listdir('seeded') if os.path.exists('seeded/%s/patch.diff' % d))
 mpath = 'seeded/MATRIX.json'
 matrix = json.load(open(mpath)) if os.path.exists(mpath) else {}
-assert subprocess.run(['git', '-C', '/repo', 'status', '--porcelain', '--untracked-files=no'], capture_output=True, text=True).stdout.strip() == '', '/repo not clean'
+# a scratch worktree of /repo's HEAD outside /repo and /verif (so that /repo itself stays untouched while this runs);
+# the checks are pointed at it through VERIF_REPO.  tools/try_patch.sh does the same against /repo itself.
+WT = '/tmp/sm_wt'
+if not os.path.isdir(WT):
+    subprocess.run(['git', '-C', '/repo', 'worktree', 'add', '-q', '--detach', WT, 'HEAD'], check=True)
+subprocess.run(['git', '-C', WT, 'checkout', '-q', '--detach', subprocess.run(['git', '-C', '/repo', 'rev-parse', 'HEAD'], capture_output=True, text=True).stdout.strip()])
+subprocess.run(['git', '-C', WT, 'checkout', '--', '.'])
+env = dict(os.environ, VERIF_REPO=WT)
 for sid in seeds:
     d = 'seeded/' + sid
-    r = subprocess.run(['git', '-C', '/repo', 'apply', os.path.abspath(d + '/patch.diff')], capture_output=True, text=True)
+    r = subprocess.run(['git', '-C', WT, 'apply', os.path.abspath(d + '/patch.diff')], capture_output=True, text=True)
     if r.returncode != 0:
         print(sid, 'patch does not apply:', r.stderr[:200]); continue
     row = {}
     try:
         for pid, cmd in checks:
-            r = subprocess.run(cmd, shell=True, capture_output=True, text=True)
+            r = subprocess.run(cmd, shell=True, capture_output=True, text=True, env=env)
             lines = [l for l in r.stdout.splitlines() if l.startswith(pid + ' [')]
             row[pid] = {'exit': r.returncode, 'first': lines[0][:300] if lines else ([l for l in r.stdout.splitlines() if 'ANALYSIS-BROKEN' in l] or [''])[0][:300]}
     finally:
-        subprocess.run(['git', '-C', '/repo', 'checkout', '--', '.'])
+        subprocess.run(['git', '-C', WT, 'checkout', '--', '.'])
     matrix[sid] = row
     det = [p for p, v in row.items() if v['exit'] == 1]
     meta = json.load(open(d + '/meta.json'))
@@ -30,5 +37,4 @@ for sid in seeds:
     json.dump(meta, open(d + '/meta.json', 'w'), indent=1)
     print(sid, 'detected by', det, 'broken', meta['broken_under'])
     json.dump(matrix, open(mpath, 'w'), indent=1)
-# the tree must be clean and all checks silent again
-print(subprocess.run(['git', '-C', '/repo', 'status', '--porcelain', '--untracked-files=no'], capture_output=True, text=True).stdout)
+print('done')
